@@ -227,7 +227,16 @@ class C19(Spec):
             b = Batch("c19-e2e%d" % i, [c], correspondence="process start-up (config.init) == Config.v accept")
             c.id = "k0"
             from common import run_both
-            results, info = run_both(scratch, binary, [c], cfg_home=home, timeout=60, tag="e2e%d" % i)
+            extra = None
+            if i % 3 == 1:
+                # the file is found through HOME/.config when XDG_CONFIG_HOME is not set
+                import os
+                import shutil
+                h2 = os.path.join(scratch.dir, "home-e2e%d" % i)
+                os.makedirs(os.path.join(h2, ".config", "servitor"), exist_ok=True)
+                shutil.copy(os.path.join(home, "servitor", "config.toml"), os.path.join(h2, ".config", "servitor", "config.toml"))
+                extra = {"XDG_CONFIG_HOME": "", "HOME": h2}
+            results, info = run_both(scratch, binary, [c], cfg_home=home, timeout=60, extra_env=extra, tag="e2e%d" % i)
             r = results["k0"]
             started += 1
             if info["impl_rc"] == 1 and r["impl"] is None:
